@@ -7,6 +7,6 @@ cp -r /repo/ECAgent "$d/ECAgent"
 ( cd "$d" && patch -s -p1 < "$patch" ) || { echo "patch failed"; rm -rf "$d"; exit 9; }
 cd "$(dirname "$0")/.."
 for c in "$@"; do
-  VERIF_OUTDIR="$d/outdir" VERIF_REPO="$d" ./check "$c" --tier quick 2>&1 | grep -E "VIOLATION|UNDECIDED|CHECKER|KNOWN|failed-obligation|^C[0-9]+:" | head -12
+  VERIF_OUTDIR="$d/outdir" VERIF_REPO="$d" ./check "$c" --tier quick 2>&1 | grep -E "VIOLATION|UNDECIDED|CHECKER|DEGRADED|KNOWN|failed-obligation|^C[0-9]+:" | head -12
 done
 rm -rf "$d"
